@@ -6,7 +6,7 @@ from .. import scenario
 ID = "C10"
 LEVEL = "fault_enumeration"
 RULE = ("the full cross product (declaration context: module / function / block, each declared as `const C: T = v`, `const C = v`, by "
-        "unpacking `const [C, z] = [v, 0]` or as `export const`; class name / imported module / imported module under another name / imported scalar member / imported list member / a constant followed by a same-named class alias) x (type: int, str, bool, [int...], int?, object with a field, optional object, optional list) x (write form: =, += -= *= /= %=, ?= in "
+        "unpacking `const [C, z] = [v, 0]` or as `export const`; class name / imported module / imported module under another name / imported scalar member / imported list member / a constant followed by a same-named class alias / by an import of a module file with its name) x (type: int, str, bool, [int...], int?, object with a field, optional object, optional list) x (write form: =, += -= *= /= %=, ?= in "
         "statement / if / while position, modify = from an inner function (untyped / typed, also after the inner function declared its own variable of that name), c[i] = v, c[i] += v, c.f = v, c.f += v, (get c).f += v, (c or d).f += v, (get c)[i] += v, reuse as "
         "from-loop counter, unpacking) x (write context: same scope, nested block, loop body, nested function, method, another "
         "module), inapplicable combinations skipped by typing, is enumerated completely in both tiers; (c or d) is used with the constant as the present value AND as the fallback. Every write form additionally runs once as a NON-CONST TWIN (the same program without the `const` keyword), which must be accepted and must run: a form that is rejected for a reason other than constness would make the main verdict vacuous (a failing twin is reported as inconclusive, exit 2, never as a violation). Oracle: the program is "
@@ -145,7 +145,7 @@ def special_programs():
     out = []
     lib = "export const V: int = 5\nexport counter: int = 0\nexport get_v: fn() -> int = fn() -> int {\n\treturn V\n}\n"
     kclass = "class K {\n\tf: int\n\tconstructor(self) {\n\t\tself.f = 1\n\t}\n}\n"
-    for ctx in ("same", "block", "fn"):
+    for ctx in ("same", "block", "fn", "loop", "while", "closure-in-block"):
         for w in ("K = 5", "K = K()", "K += 1", "modify K = 5", "from 0 to 3, K {\n}", "[K, z] = [1, 2]"):
             if w.startswith("modify") and ctx != "fn":
                 continue
@@ -178,6 +178,12 @@ def special_programs():
                     continue
                 src = "import %s, %s from lib\nimport lib\nprint \"@start\"\n" % (name, peek) + place_write(w, ctx) + "\nprint \"@obs\"\nprint lib.%s\nprint %s()\n" % (name, peek)
                 out.append(({"decl": "imported-list-member" + ("/const" if name == "LC" else ""), "type": "list", "form": w.replace(name, "L"), "wctx": ctx}, {"main.ms": src, "lib.ms": liblist}, "[1, 2, 3]"))
+        # a whole-module import is a declaration of the module's name: a constant (or a class) with the name of a module file must
+        # not be replaced by it in a nested block
+        for cdecl, obs, exp in (("const C = 5", "C", "5"), ("const C: str = \"mono\"", "C", "mono")):
+            for w in ("import C", "import v from C\nimport C"):
+                src = "print \"@start\"\n" + cdecl + "\nrd = fn() -> %s {\n\treturn C\n}\n" % ("int" if exp == "5" else "str") + place_write(w, ctx) + "\nprint \"@obs\"\nprint C\nprint rd()\n"
+                out.append(({"decl": "const-named-like-a-module", "type": "int" if exp == "5" else "str", "form": w.replace("\n", "; "), "wctx": ctx}, {"main.ms": src, "C.ms": "export v: int = 1\n"}, exp))
         # a type alias of a class declared AFTER a constant of the same name must not unseat the constant; the alias itself is
         # a name for the constructor and cannot be reassigned
         for w in ("type C K\nC = K()\nC.f = 9", "type C K\nC.f = 9", "type Al K\nAl = K", "type Al K\nAl = 5"):
